@@ -785,7 +785,7 @@ int femmcli::LuaCommonCommands::luaDeleteBoundaryProperty(lua_State *L)
                 doc->lineproplist.end()
                 );
     doc->lineproplist.shrink_to_fit();
-    doc->updateLineMap();
+    doc->updateIndicesFromLabels();
 
     if (luaInstance->getDebugGeometry())
         luaDebugWriteFEMFile(L);
@@ -825,7 +825,7 @@ int femmcli::LuaCommonCommands::luaDeleteCircuitProperty(lua_State *L)
                 doc->circproplist.end()
                 );
     doc->circproplist.shrink_to_fit();
-    doc->updateCircuitMap();
+    doc->updateIndicesFromLabels();
 
     if (luaInstance->getDebugGeometry())
         luaDebugWriteFEMFile(L);
@@ -865,7 +865,7 @@ int femmcli::LuaCommonCommands::luaDeleteMaterial(lua_State *L)
                 doc->blockproplist.end()
                 );
     doc->blockproplist.shrink_to_fit();
-    doc->updateBlockMap();
+    doc->updateIndicesFromLabels();
 
     if (luaInstance->getDebugGeometry())
         luaDebugWriteFEMFile(L);
@@ -905,7 +905,7 @@ int femmcli::LuaCommonCommands::luaDeletePointProperty(lua_State *L)
                 doc->nodeproplist.end()
                 );
     doc->nodeproplist.shrink_to_fit();
-    doc->updateNodeMap();
+    doc->updateIndicesFromLabels();
 
     return 0;
 }
@@ -1440,7 +1440,7 @@ int femmcli::LuaCommonCommands::luaGetMaterialFromLib(lua_State *L)
         if (prop != nullptr)
         {
             doc->blockproplist.push_back(std::unique_ptr<CMaterialProp>(prop));
-            doc->updateBlockMap();
+            doc->updateIndicesFromLabels();
             return 0;
         }
     }
